@@ -333,9 +333,9 @@ func c13Model(e *env, c *c13Case, orders [][]int, first *c13Obs, reg *template.R
 		}
 		fileSexps[i] = s
 	}
-	// the identity order and up to three others
+	// the identity order and up to two others
 	sel := [][]int{orders[0]}
-	for k := 0; k < 3 && len(orders) > 1; k++ {
+	for k := 0; k < 2 && len(orders) > 1; k++ {
 		sel = append(sel, orders[1+e.rng.Intn(len(orders)-1)])
 	}
 	for pi, p := range sel {
